@@ -8,7 +8,8 @@ class C40(Prop):
     pid = "C40"
     check_mod = "C40"
     drivers = [dict(pkg="internal/core", test="TestVerifC40", timeout=900),
-               dict(pkg="internal/stream", test="TestVerifC40Stream", timeout=600)]
+               dict(pkg="internal/stream", test="TestVerifC40Stream", timeout=600),
+               dict(pkg="internal/servers/hls", test="TestVerifC40Mux", timeout=600)]
     n_quick = 32
     n_thorough = 320
     shard = 40
@@ -51,7 +52,15 @@ class C40(Prop):
             "pathManager.run is busy, the publishers of that path and of 1-3 others leave, an API request that needs the "
             "muxers' mutexes (sessions list / muxers list / muxers get) arrives, pathManager.run is released; program "
             "points of both loops and the muxers inside pathManager.AddReader from goroutine dumps after each segment; "
-            "8 s watchdog). Non-trivial = every case; distinct = distinct descriptions")
+            "8 s watchdog). HLS muxer level (max(8, n/2) more cases on a REAL hls.Server with a fake path manager, no hook: "
+            "one muxer per case, client-requested (getMuxer with create) or always-remux (PathReady), whose start-up ends in "
+            "every way runInner distinguishes (pathManager.AddReader error / no supported codec / instance running); then 1-3 "
+            "events: instance failure (the publisher writes access units bigger than hlsSegmentMaxSize; forced in half of "
+            "the cases, on client-requested and always-remux muxers in turn), activity-timer expiry (muxerCloseAfter 1 s), "
+            "API muxers list / get (need the muxer's mutex); last: Server.Close(). Every call has a 3 s deadline; after "
+            "each segment: muxer still listed?, muxer.mutex TryLock, number of calls that have not returned, compared "
+            "with the muxer-level model after draining it; spec: nothing timed out, mutex free and no call pending at "
+            "every rest point, muxer gone after Close). Non-trivial = every case; distinct = distinct descriptions")
     trusted_base = ["Coq 8.16.1 kernel + VM (vm_compute for cases and for the _refuted witness)",
                     "in-package driver zz_verif_c40_test.go: hooks on the real goroutines, classification of goroutine "
                     "dumps (runtime.Stack) by frame names of internal/core (pathManager.run, path.run/runInner, removePath, "
@@ -76,7 +85,12 @@ class C40(Prop):
                     "(*muxer).apiSessionsList / apiItem, (*muxer).runInner -> pathManager.AddReader)",
                     "model Model/C40_HlsLoop.v hand-written from path_manager.go (doSetPathReady/NotReady, AddReader), "
                     "hls/server.go (run, PathReady/PathNotReady, API requests), hls/muxer.go (initialize, runInner, run, "
-                    "the mutex), hls/session.go (close2); theorem C40_hls_check_settled_sound for the enabledness test"]
+                    "the mutex), hls/session.go (close2); theorem C40_hls_check_settled_sound for the enabledness test",
+                    "in-package driver zz_verif_c40mux_test.go (sync.RWMutex.TryLock/TryRLock on the real muxer.mutex, "
+                    "read of muxer.instance under TryRLock, the server's API answers, deadlines)",
+                    "model Model/C40_HlsMux.v hand-written from hls/muxer.go (initialize, run, runInner: one lock/touch "
+                    "instruction list per event and muxer kind) and the users of muxer.mutex; tied by the muxer-level "
+                    "forced histories"]
     assumptions = ["NOT PROVED: data-race freedom (Go memory model) — outside what a Gallina model can express; the thorough "
                    "tier runs the soak under `go test -race` as supporting TESTING evidence only",
                    "Go channel semantics: unbuffered send/receive is a rendezvous; a select with a ready branch proceeds; "
@@ -134,7 +148,15 @@ class C40(Prop):
              "PathReady/PathNotReady never block) EVERY state is quiescent or has an enabled step, every schedule is "
              "finite, quiescence is reached; the pinned code (unbuffered send) is refuted by three reachable cycles - "
              "A1 reproduced on the real code (goroutine dump: pathManager.run in PathNotReady, hls.Server.run at the muxer's "
-             "mutex, muxer in pathManager.AddReader) and fixed in /repo.",
+             "mutex, muxer in pathManager.AddReader) and fixed in /repo. HLS muxer level (fifth model): the muxer's own "
+             "goroutine (initialize / runInner / run: one instruction list over muxer.mutex per event - AddReader error, "
+             "first instance created / not created, instance failure, instance re-creation, session clean-up, activity "
+             "timer, context - and per muxer kind, client-requested or always-remux), API readers, session writers and "
+             "Server.Close(): every exit path of runInner releases the mutex (lock discipline as a type system, kept by "
+             "every step), so every state is quiescent or has an enabled step, every schedule is finite, every call "
+             "returns and after Close() the muxer is gone; refuted: four variants in which one exit path leaves with "
+             "the mutex held (instance failure of a client-requested muxer, AddReader error, creation error, session "
+             "clean-up): the muxer waits for itself in run(), API requests and Close() never return.",
         note="Data-race freedom is NOT decided by proof (it is a property of the Go memory model that an executable Gallina "
              "model cannot exhibit); a `go test -race` soak of the driver runs in the thorough tier as supporting testing "
              "evidence only. External calls made from the loops are assumed to return.",
